@@ -21,6 +21,7 @@ def run(tier, seed):
                                  "--cpus", str(rng.choice([2, 4, 8])), "--keys", str(rng.choice([4, 5, 6])),
                                  "--ttl", "1", "--end", "drop", "--flushpct", "14",
                                  "--maximages", "300" if tier == "quick" else "1500", "--refill", "1"]))
+    jobs += ce.full_device_jobs(rng, 8 if tier == "quick" else 48, maximages="300" if tier == "quick" else "1500")
     # MC: write-behind / journal / retirement protocol, every crash image of every reachable state
     mc_viol = []
     mcs = [ce.mc_model(rd, "MCWriteBehind", "MCWriteBehind_quick_warm.cfg" if tier == "quick" else "MCWriteBehind_full_warm.cfg",
